@@ -22,12 +22,18 @@ def make_class(kind, fmt, akind, sign, k):
     """a minimal XDP program containing the one statement under test"""
     from ebpfcat.xdp import XDP, XDPExitCode
     from ebpfcat.arraymap import ArrayMap, PerCPUArrayMap
-    from ebpfcat.ebpf import LocalVar
+    from ebpfcat.ebpf import LocalVar, Structure, Member
+    from ebpfcat.hashmap import Dict
     m = PerCPUArrayMap() if kind == "percpu" else ArrayMap()
     afmt = "q" if FMTS[fmt] == 8 else "i"
     ns = dict(license="GPL", m=m, v=m.globalVar(fmt), a1=m.globalVar(afmt), a2=m.globalVar(afmt))
     if kind == "local":
         ns["loc"] = LocalVar(fmt)
+    if kind == "dictval":
+        # a member of the looked-up value of a Dict: it lives in the hash map, shared by all instances
+        K = type("K", (Structure,), {"k": Member("I")})
+        V = type("V", (Structure,), {"pad": Member("Q"), "count": Member(fmt)})
+        ns["dd"] = Dict(key=K, value=V, size=4)
 
     def amount(self):
         if akind == "const":
@@ -51,6 +57,13 @@ def make_class(kind, fmt, akind, sign, k):
                 self.loc += a
             else:
                 self.loc -= a
+        elif kind == "dictval":
+            self.dd.key.k = DICT_KEY
+            with self.dd.lookup() as (value, Else):
+                if sign > 0:
+                    value.count += a
+                else:
+                    value.count -= a
         else:                                          # raw memory access through the map base
             mm = getattr(self, "m" + fmt)
             addr = self.r[m.base_register] + self.__dict__["v"]
@@ -63,9 +76,12 @@ def make_class(kind, fmt, akind, sign, k):
     return type(f"X_{kind}_{fmt}_{akind}_{'p' if sign > 0 else 'm'}", (XDP,), ns)
 
 
+DICT_KEY = 7
+
+
 def shapes(ctx):
     out = []
-    for kind in ("map", "percpu", "local", "mem"):
+    for kind in ("map", "percpu", "local", "mem", "dictval"):
         for fmt in FMTS:
             for sign in (1, -1):
                 consts = [1, 5, -3, 2 ** 31 - 1] + ([2 ** 40 + 7] if FMTS[fmt] == 8 and fmt != "x" else [])
@@ -105,9 +121,16 @@ def run(ctx):
             asz = 8 if size == 8 else 4
             buf[inst.__dict__["a1"]:inst.__dict__["a1"] + asz] = word(a1, asz)
             buf[inst.__dict__["a2"]:inst.__dict__["a2"] + asz] = word(a2, asz)
-            c = progs.case(b, arr={1: bytes(buf)})
+            hashes = []
+            if kind == "dictval":
+                dfd = next(j + 1 for j, mm in enumerate(b.maps) if mm["type"] == "hash")
+                entry = bytes(8) + bytes(word(init, size))
+                hashes = [(dfd, DICT_KEY.to_bytes(4, "little"), entry + bytes(b.maps[dfd - 1]["vs"] - len(entry)))]
+            c = progs.case(b, arr={1: bytes(buf)}, hashes=hashes)
             if kind == "local":
                 var = dict(kind="stack", fd=0, off=type(inst).loc.relative_addr, size=size)
+            elif kind == "dictval":
+                var = dict(kind="hash", fd=dfd, off=8, size=size, key=list(DICT_KEY.to_bytes(4, "little")))
             else:
                 var = dict(kind="map", fd=1, off=inst.__dict__["v"], size=size)
             c.update(n=n, var=var, fmt=fmt, amount=word(amount, size), sign=sign, stack0=word(init, size))
@@ -130,7 +153,7 @@ def run(ctx):
             v["ok"] = False
             v["bad"].append((sts, vals))
     ctx.exhaustive = True
-    ctx.rule = (f"every statement shape (4 memory kinds x 5 formats x += / -= x constant / register / "
+    ctx.rule = (f"every statement shape (5 memory kinds (incl. members of a looked-up Dict value) x 5 formats x += / -= x constant / register / "
                 f"expression amounts) x initial values, {n} instances, all interleavings; non-trivial = "
                 f"shared map variable (the instances really race)")
     ctx.extra.update(instances=n, shapes_skipped=skipped[:20], n_skipped=len(skipped))
